@@ -1189,3 +1189,708 @@ func ruleNoGuessedTranscoding(c *eng.Ctx) {
 	}
 	c.Ok(R, "html#scanned", token.NoPos, fmt.Sprintf("%d transcoding readers", n))
 }
+
+// ---------------------------------------------------------------------------------------------------------------
+// R18.20 package-absolute relationship targets are told apart from relative ones.
+
+// R18.20 [C18]
+func ruleAbsoluteTargetsRecognised(c *eng.Ctx) {
+	const R = "R18.20-ABSOLUTE-TARGETS-RECOGNISED"
+	c.Rule(R, "the functions that turn a relationship target into an archive member name (pptx declaredSlideFiles, xlsx parseWorksheets, with their helpers) look at how the target starts - strings.HasPrefix(target, \"/\"), path.IsAbs, a comparison of its first byte with '/' - or resolve it as a URL reference: OPC allows package-absolute targets (/ppt/slides/slide1.xml) next to relative ones, and Go's path.Join concatenates, it does not let an absolute element win, so a join with the owner's directory turns the absolute target into ppt/ppt/slides/slide1.xml and the declared part is silently skipped", 2, 0)
+	for _, name := range []string{"pptx.(*Reader).declaredSlideFiles", "xlsx.(*Reader).parseWorksheets"} {
+		fn := c.P.Func(name)
+		if fn == nil {
+			c.Undec(R, name, token.NoPos, "anchor not found")
+			continue
+		}
+		found := false
+		for _, h := range eng.Cluster(fn, 2) {
+			if h.Pkg != fn.Pkg {
+				continue
+			}
+			eng.Instrs(h, true, func(in ssa.Instruction) {
+				switch x := in.(type) {
+				case *ssa.Call:
+					switch eng.CalleeName(x) {
+					case "strings.HasPrefix":
+						if s, ok := eng.ConstString(x.Call.Args[1]); ok && s == "/" {
+							found = true
+						}
+					case "path.IsAbs", "net/url.(*URL).ResolveReference", "net/url.(*URL).IsAbs":
+						found = true
+					}
+				case *ssa.BinOp:
+					if x.Op == token.EQL || x.Op == token.NEQ {
+						for _, pair := range [][2]ssa.Value{{x.X, x.Y}, {x.Y, x.X}} {
+							if k, ok := eng.ConstInt(pair[1]); ok && k == '/' {
+								if _, isIdx := pair[0].(*ssa.Lookup); isIdx {
+									found = true
+								}
+								if u, isU := pair[0].(*ssa.UnOp); isU {
+									if _, isIA := u.X.(*ssa.IndexAddr); isIA {
+										found = true
+									}
+								}
+							}
+						}
+					}
+				}
+			})
+		}
+		c.Check(found, R, name+"#absolute", fn.Pos(), "the start of the target is examined", "nothing in this function or its helpers looks at whether a relationship target starts with '/': a package-absolute target is joined with the owner's directory like a relative one (path.Join does not let an absolute element win), the member is not found and the declared part is skipped, so the page count is short and later parts move up")
+	}
+}
+
+// ---------------------------------------------------------------------------------------------------------------
+// R16.19 the grid-column lookup of the DOCX table parser, read on every small row.
+
+// R16.19 [C16]
+func ruleCellAtColumnBySpans(c *eng.Ctx) {
+	const R = "R16.19-CELL-AT-COLUMN"
+	c.Rule(R, "docx.(*TableParser).findCellAtColumn, evaluated on every row of up to four cells with column spans 1..3 and every target column: the answer is the index of the cell whose columns [start, start+span) contain the target, and -1 beyond the row. processVerticalMerges uses it to find the cell that started a vertical merge; an answer one cell to the left credits the rows of the merge to the neighbour", 1, 0)
+	fn := c.P.Func("docx.(*TableParser).findCellAtColumn")
+	if fn == nil {
+		c.Ok(R, "docx.(*TableParser).findCellAtColumn", token.NoPos, "no such helper: not evaluated")
+		return
+	}
+	name := eng.FuncName(fn)
+	rowIdx, colIdx := -1, -1
+	var cellT types.Type
+	for i, p := range fn.Params {
+		if st, ok := p.Type().Underlying().(*types.Struct); ok {
+			for f := 0; f < st.NumFields(); f++ {
+				if sl, ok := st.Field(f).Type().Underlying().(*types.Slice); ok && st.Field(f).Name() == "Cells" {
+					rowIdx = i
+					cellT = sl.Elem()
+				}
+			}
+		}
+		if bt, ok := p.Type().Underlying().(*types.Basic); ok && bt.Kind() == types.Int {
+			colIdx = i
+		}
+	}
+	if rowIdx < 0 || colIdx < 0 || cellT == nil {
+		c.Ok(R, name, fn.Pos(), "the signature is not (row with Cells, target column): not evaluated")
+		return
+	}
+	if _, ok := cellT.Underlying().(*types.Struct); !ok {
+		c.Ok(R, name, fn.Pos(), "cells are not struct values: not evaluated")
+		return
+	}
+	cases, bad := 0, ""
+	var spans func(prefix []int)
+	try := func(sp []int) bool {
+		total := 0
+		for _, s := range sp {
+			total += s
+		}
+		for target := 0; target <= total+1; target++ {
+			want, start := -1, 0
+			for i, s := range sp {
+				if target >= start && target < start+s {
+					want = i
+					break
+				}
+				start += s
+			}
+			args := make([]any, len(fn.Params))
+			for i, p := range fn.Params {
+				switch {
+				case i == rowIdx:
+					row := eng.ZeroOf(p.Type()).(*eng.EStruct)
+					var cells []any
+					for _, s := range sp {
+						cell := eng.ZeroOf(cellT).(*eng.EStruct)
+						if !eng.SetField(cell, cellT, "ColSpan", int64(s)) {
+							return false
+						}
+						cells = append(cells, cell)
+					}
+					eng.SetField(row, p.Type(), "Cells", eng.SliceOf(cells...))
+					args[i] = row
+				case i == colIdx:
+					args[i] = int64(target)
+				default:
+					if pt, ok := p.Type().Underlying().(*types.Pointer); ok {
+						loc := &eng.ELoc{V: eng.ZeroOf(pt.Elem())}
+						args[i] = &eng.EPtr{Get: func() any { return loc.V }, Set: func(v any) { loc.V = v }}
+					} else {
+						args[i] = eng.ZeroOf(p.Type())
+					}
+				}
+			}
+			got, err := eng.NewEvaluator().Call(fn, args, 0)
+			if err != nil && !err.Panic {
+				bad = "!" + err.Msg
+				return false
+			}
+			cases++
+			if err != nil {
+				bad = fmt.Sprintf("spans %v, column %d: %s", sp, target, err.Msg)
+				return false
+			}
+			if g, ok := got.(int64); !ok || g != int64(want) {
+				bad = fmt.Sprintf("spans %v, column %d: answers %v, the cell covering the column is %d", sp, target, got, want)
+				return false
+			}
+		}
+		return true
+	}
+	stop := false
+	spans = func(prefix []int) {
+		if stop {
+			return
+		}
+		if len(prefix) > 0 && !try(prefix) {
+			stop = true
+			return
+		}
+		if len(prefix) == 4 {
+			return
+		}
+		for s := 1; s <= 3; s++ {
+			spans(append(append([]int(nil), prefix...), s))
+		}
+	}
+	spans(nil)
+	if strings.HasPrefix(bad, "!") {
+		c.Ok(R, name, fn.Pos(), "not evaluated: "+bad[1:])
+		return
+	}
+	c.Check(bad == "", R, name+"#spec", fn.Pos(), fmt.Sprintf("%d rows and columns evaluated, all answers are the covering cell", cases), "the grid-column lookup answers the wrong cell ("+bad+"): every vertical merge that does not start in the first grid column is credited to the neighbouring cell, whose RowSpan grows while the merged cell keeps RowSpan 1")
+}
+
+// ---------------------------------------------------------------------------------------------------------------
+// R5.17 every RFC 1950 header reaches the zlib reader.
+
+// R5.17 [C05]
+func ruleEveryZlibHeaderInflated(c *eng.Ctx) {
+	const R = "R5.17-EVERY-ZLIB-HEADER-INFLATED"
+	c.Rule(R, "filters.zlibDecompress, evaluated up to its first decompressor on every valid RFC 1950 header (CM=8, CINFO 0..7, FDICT clear, FCHECK making the two bytes a multiple of 31, all four FLEVEL values): the data is handed to zlib.NewReader. A sniff that only knows the 32K-window byte 0x78 sends the streams of encoders that chose a smaller window (08 1D, 18 19, 28 15 ... 68 xx) to another decoder, and a conforming FlateDecode stream no longer decodes", 1, 0)
+	fn := c.P.Func("internal/filters.zlibDecompress")
+	if fn == nil {
+		c.Ok(R, "internal/filters.zlibDecompress", token.NoPos, "no such function: not evaluated")
+		return
+	}
+	name := eng.FuncName(fn)
+	if len(fn.Params) != 1 {
+		c.Ok(R, name, fn.Pos(), "not (data []byte): not evaluated")
+		return
+	}
+	n, bad, skipped := 0, "", ""
+	for cinfo := 0; cinfo <= 7 && bad == "" && skipped == ""; cinfo++ {
+		for flevel := 0; flevel <= 3; flevel++ {
+			cmf := cinfo<<4 | 8
+			flg := flevel << 6
+			flg += (31 - (cmf*256+flg)%31) % 31
+			data := []byte{byte(cmf), byte(flg), 0x03, 0x00, 0x00, 0x00, 0x00, 0x01}
+			ev := eng.NewEvaluator()
+			reached := ""
+			ev.External = func(g *ssa.Function, args []any) (any, *eng.EvalError, bool) {
+				nm := eng.FuncName(g)
+				switch nm {
+				case "compress/zlib.NewReader", "compress/zlib.NewReaderDict", "compress/flate.NewReader", "compress/flate.NewReaderDict", "compress/gzip.NewReader":
+					reached = nm
+					return nil, &eng.EvalError{Msg: "decompressor"}, true
+				case "bytes.NewReader", "bytes.NewBuffer":
+					return nil, nil, true // an opaque reader over the data
+				}
+				return nil, nil, false
+			}
+			_, err := ev.Call(fn, []any{eng.BytesOf(data)}, 0)
+			if reached == "" {
+				msg := "returns without a decompressor"
+				if err != nil {
+					msg = err.Msg
+				}
+				skipped = fmt.Sprintf("header %02X %02X: %s", cmf, flg, msg)
+				break
+			}
+			n++
+			if !strings.HasPrefix(reached, "compress/zlib.") {
+				bad = fmt.Sprintf("header %02X %02X (window 2^%d) is handed to %s", cmf, flg, cinfo+8, reached)
+				break
+			}
+		}
+	}
+	if skipped != "" {
+		c.Ok(R, name, fn.Pos(), "not evaluated: "+skipped)
+		return
+	}
+	c.Check(bad == "", R, name+"#headers", fn.Pos(), fmt.Sprintf("%d valid zlib headers, all handed to the zlib reader", n), "a valid zlib stream is not handed to the zlib reader: "+bad+"; RFC 1950 allows every window size up to 32K and encoders choose small ones for short inputs, so a conforming FlateDecode stream fails to decode")
+}
+
+// ---------------------------------------------------------------------------------------------------------------
+// R17.17 column letters and column numbers, read on every column up to ZZZ.
+
+// bijectiveBase26 is the specification: 0 -> A, 25 -> Z, 26 -> AA, 701 -> ZZ, 702 -> AAA.
+func bijectiveBase26(i int) string {
+	s := ""
+	for n := i + 1; n > 0; n = (n - 1) / 26 {
+		s = string(rune('A'+(n-1)%26)) + s
+	}
+	return s
+}
+
+// R17.17 [C17]
+func ruleColumnLettersBijective(c *eng.Ctx) {
+	const R = "R17.17-COLUMN-LETTERS-BIJECTIVE"
+	c.Rule(R, "xlsx.IndexToColumn and xlsx.ColumnToIndex, evaluated on every column from A to ZZZ (0..18277, one past the 16384 columns of the format): IndexToColumn(i) is the bijective base-26 numeral of i, ColumnToIndex gives i back for it in upper and in lower case, and a text with a character outside A-Z is refused with -1. The cell grid, the merge ranges and CellRef are all addressed through these two functions", 2, 0)
+	to := c.P.Func("xlsx.IndexToColumn")
+	from := c.P.Func("xlsx.ColumnToIndex")
+	if to != nil && len(to.Params) == 1 {
+		bad, skipped, n := "", "", 0
+		for i := 0; i < 18278 && bad == "" && skipped == ""; i++ {
+			got, err := eng.NewEvaluator().Call(to, []any{int64(i)}, 0)
+			if err != nil && !err.Panic {
+				skipped = err.Msg
+				break
+			}
+			n++
+			if err != nil {
+				bad = fmt.Sprintf("IndexToColumn(%d): %s", i, err.Msg)
+			} else if g, ok := got.(string); !ok || g != bijectiveBase26(i) {
+				bad = fmt.Sprintf("IndexToColumn(%d) = %q, column %d is %q", i, got, i, bijectiveBase26(i))
+			}
+		}
+		if skipped != "" {
+			c.Ok(R, "xlsx.IndexToColumn", to.Pos(), "not evaluated: "+skipped)
+		} else {
+			c.Check(bad == "", R, "xlsx.IndexToColumn#spec", to.Pos(), fmt.Sprintf("%d columns evaluated", n), "the column number is not written as the bijective base-26 numeral ("+bad+"): cells are addressed one column off or two columns share a name")
+		}
+	} else {
+		c.Ok(R, "xlsx.IndexToColumn", token.NoPos, "no such function: not evaluated")
+	}
+	if from != nil && len(from.Params) == 1 {
+		bad, skipped, n := "", "", 0
+		for i := 0; i < 18278 && bad == "" && skipped == ""; i++ {
+			for _, text := range []string{bijectiveBase26(i), strings.ToLower(bijectiveBase26(i))} {
+				got, err := eng.NewEvaluator().Call(from, []any{text}, 0)
+				if err != nil && !err.Panic {
+					skipped = err.Msg
+					break
+				}
+				n++
+				if err != nil {
+					bad = fmt.Sprintf("ColumnToIndex(%q): %s", text, err.Msg)
+				} else if g, ok := got.(int64); !ok || g != int64(i) {
+					bad = fmt.Sprintf("ColumnToIndex(%q) = %v, it is column %d", text, got, i)
+				}
+			}
+		}
+		for _, text := range []string{"A1", "A-", "@", "[", "A B"} {
+			if bad != "" || skipped != "" {
+				break
+			}
+			got, err := eng.NewEvaluator().Call(from, []any{text}, 0)
+			if err != nil && !err.Panic {
+				skipped = err.Msg
+				break
+			}
+			n++
+			if g, ok := got.(int64); err != nil || !ok || g >= 0 {
+				bad = fmt.Sprintf("ColumnToIndex(%q) = %v, a text with a character outside A-Z is no column", text, got)
+			}
+		}
+		if skipped != "" {
+			c.Ok(R, "xlsx.ColumnToIndex", from.Pos(), "not evaluated: "+skipped)
+		} else {
+			c.Check(bad == "", R, "xlsx.ColumnToIndex#spec", from.Pos(), fmt.Sprintf("%d column names evaluated", n), "the column name is not read as the bijective base-26 numeral ("+bad+"): a cell reference names another column than the one the value is put in")
+		}
+	} else {
+		c.Ok(R, "xlsx.ColumnToIndex", token.NoPos, "no such function: not evaluated")
+	}
+}
+
+// ---------------------------------------------------------------------------------------------------------------
+// R5.18 / R5.19 the two ASCII decoders, read on every short input a conforming encoder can produce.
+
+func evalBytes(v any) ([]byte, bool) {
+	sl, ok := v.(*eng.ESlice)
+	if !ok {
+		return nil, v == nil
+	}
+	var out []byte
+	for _, l := range sl.L {
+		b, ok := l.V.(int64)
+		if !ok {
+			return nil, false
+		}
+		out = append(out, byte(b))
+	}
+	return out, true
+}
+
+// decodeCase evaluates a decoder func([]byte) ([]byte, error) on one input.
+// skipped != "" : the evaluator could not read the function.
+func decodeCase(fn *ssa.Function, in []byte) (out []byte, failed bool, skipped string) {
+	got, err := eng.NewEvaluator().Call(fn, []any{eng.BytesOf(in)}, 0)
+	if err != nil {
+		if err.Panic {
+			return nil, true, ""
+		}
+		return nil, false, err.Msg
+	}
+	t, ok := got.(eng.ETuple)
+	if !ok || len(t) != 2 {
+		return nil, false, "result is not (bytes, error)"
+	}
+	if t[1] != nil {
+		return nil, true, ""
+	}
+	b, ok := evalBytes(t[0])
+	if !ok {
+		return nil, false, "result bytes not readable"
+	}
+	return b, false, ""
+}
+
+func withSpace(enc string, at int, ws string) string {
+	if at > len(enc) {
+		at = len(enc)
+	}
+	return enc[:at] + ws + enc[at:]
+}
+
+// R5.18 [C05]
+func ruleHexDecoderInverts(c *eng.Ctx) {
+	const R = "R5.18-ASCIIHEX-INVERTS"
+	c.Rule(R, "filters.ASCIIHexDecode, evaluated on the hexadecimal spelling (upper and lower case) of every byte string of up to two bytes over a sample of values, with white space (space, LF, NUL, CR LF) put at every position, with and without the '>' marker and with bytes after it: the answer is the original bytes; an odd final digit stands for digit+0; a character that is neither a digit, white space nor '>' gives an error", 1, 0)
+	fn := c.P.Func("internal/filters.ASCIIHexDecode")
+	if fn == nil || len(fn.Params) != 1 {
+		c.Ok(R, "internal/filters.ASCIIHexDecode", token.NoPos, "no such function: not evaluated")
+		return
+	}
+	vals := []byte{0x00, 0x09, 0x3E, 0x7A, 0xA5, 0xFF}
+	var plains [][]byte
+	plains = append(plains, nil)
+	for _, a := range vals {
+		plains = append(plains, []byte{a})
+		for _, b := range vals {
+			plains = append(plains, []byte{a, b})
+		}
+	}
+	n, bad := 0, ""
+	check := func(in string, want []byte, wantErr bool) bool {
+		out, failed, skipped := decodeCase(fn, []byte(in))
+		if skipped != "" {
+			bad = "!" + skipped
+			return false
+		}
+		n++
+		switch {
+		case wantErr && !failed:
+			bad = fmt.Sprintf("%q decodes to % X, it is not hexadecimal data and must give an error", in, out)
+		case !wantErr && failed:
+			bad = fmt.Sprintf("%q gives an error, it decodes to % X", in, want)
+		case !wantErr && string(out) != string(want):
+			bad = fmt.Sprintf("%q decodes to % X, it encodes % X", in, out, want)
+		}
+		return bad == ""
+	}
+outer:
+	for _, p := range plains {
+		for _, format := range []string{"%02X", "%02x"} {
+			enc := ""
+			for _, b := range p {
+				enc += fmt.Sprintf(format, b)
+			}
+			for _, tail := range []string{"", ">", ">zz", " >"} {
+				if !check(enc+tail, p, false) {
+					break outer
+				}
+				for at := 0; at <= len(enc); at++ {
+					for _, ws := range []string{" ", "\n", "\x00", "\r\n"} {
+						if !check(withSpace(enc, at, ws)+tail, p, false) {
+							break outer
+						}
+					}
+				}
+			}
+		}
+	}
+	if bad == "" {
+		for _, cs := range []struct {
+			in   string
+			want []byte
+			err  bool
+		}{{"A", []byte{0xA0}, false}, {"A>", []byte{0xA0}, false}, {"41 4>", []byte{0x41, 0x40}, false}, {"G0", nil, true}, {"0G", nil, true}, {"4 1g", nil, true}} {
+			if !check(cs.in, cs.want, cs.err) {
+				break
+			}
+		}
+	}
+	if strings.HasPrefix(bad, "!") {
+		c.Ok(R, "internal/filters.ASCIIHexDecode", fn.Pos(), "not evaluated: "+bad[1:])
+		return
+	}
+	c.Check(bad == "", R, "internal/filters.ASCIIHexDecode#spec", fn.Pos(), fmt.Sprintf("%d inputs evaluated", n), "the hexadecimal decoder does not invert the encoding: "+bad)
+}
+
+func a85Encode(p []byte, useZ bool) string {
+	var sb strings.Builder
+	for i := 0; i < len(p); i += 4 {
+		n := len(p) - i
+		if n > 4 {
+			n = 4
+		}
+		var v uint32
+		for j := 0; j < 4; j++ {
+			v <<= 8
+			if j < n {
+				v |= uint32(p[i+j])
+			}
+		}
+		if n == 4 && v == 0 && useZ {
+			sb.WriteByte('z')
+			continue
+		}
+		var d [5]byte
+		for j := 4; j >= 0; j-- {
+			d[j] = byte(v%85) + '!'
+			v /= 85
+		}
+		sb.Write(d[:n+1])
+	}
+	return sb.String()
+}
+
+// R5.19 [C05]
+func ruleBase85DecoderInverts(c *eng.Ctx) {
+	const R = "R5.19-ASCII85-INVERTS"
+	c.Rule(R, "filters.ASCII85Decode, evaluated on the base-85 spelling (with and without the 'z' abbreviation) of every byte string of up to four (quick) or five (thorough) bytes over a sample of values, with white space put inside, with and without the '~>' marker: the answer is the original bytes; a character outside '!'..'u', a 'z' inside a group and a group above 2^32-1 give an error", 1, 0)
+	fn := c.P.Func("internal/filters.ASCII85Decode")
+	if fn == nil || len(fn.Params) != 1 {
+		c.Ok(R, "internal/filters.ASCII85Decode", token.NoPos, "no such function: not evaluated")
+		return
+	}
+	vals := []byte{0x00, 0x01, 0x7E, 0xFF}
+	plains := [][]byte{nil}
+	level := [][]byte{nil}
+	maxLen := 4 // quick: 341 byte strings; thorough: 1365
+	if c.Tier == "thorough" {
+		maxLen = 5
+	}
+	for l := 1; l <= maxLen; l++ {
+		var next [][]byte
+		for _, p := range level {
+			for _, v := range vals {
+				next = append(next, append(append([]byte(nil), p...), v))
+			}
+		}
+		plains = append(plains, next...)
+		level = next
+	}
+	n, bad := 0, ""
+	check := func(in string, want []byte, wantErr bool) bool {
+		out, failed, skipped := decodeCase(fn, []byte(in))
+		if skipped != "" {
+			bad = "!" + skipped
+			return false
+		}
+		n++
+		switch {
+		case wantErr && !failed:
+			bad = fmt.Sprintf("%q decodes to % X, it is not base-85 data and must give an error", in, out)
+		case !wantErr && failed:
+			bad = fmt.Sprintf("%q gives an error, it decodes to % X", in, want)
+		case !wantErr && string(out) != string(want):
+			bad = fmt.Sprintf("%q decodes to % X, it encodes % X", in, out, want)
+		}
+		return bad == ""
+	}
+outer:
+	for _, p := range plains {
+		for _, useZ := range []bool{false, true} {
+			enc := a85Encode(p, useZ)
+			for _, tail := range []string{"", "~>", "\n~>"} {
+				if !check(enc+tail, p, false) {
+					break outer
+				}
+				for _, at := range []int{0, 1, 3, len(enc)} {
+					for _, ws := range []string{" ", "\r\n", "\x00"} {
+						if !check(withSpace(enc, at, ws)+tail, p, false) {
+							break outer
+						}
+					}
+				}
+			}
+		}
+	}
+	if bad == "" {
+		for _, cs := range []struct {
+			in   string
+			want []byte
+			err  bool
+		}{{"s8W-!", []byte{0xFF, 0xFF, 0xFF, 0xFF}, false}, {"s8W-\"", nil, true}, {"uuuuu", nil, true}, {"!!v!!", nil, true}, {"!!z!!", nil, true}, {"zz~>", make([]byte, 8), false}} {
+			if !check(cs.in, cs.want, cs.err) {
+				break
+			}
+		}
+	}
+	if strings.HasPrefix(bad, "!") {
+		c.Ok(R, "internal/filters.ASCII85Decode", fn.Pos(), "not evaluated: "+bad[1:])
+		return
+	}
+	c.Check(bad == "", R, "internal/filters.ASCII85Decode#spec", fn.Pos(), fmt.Sprintf("%d inputs evaluated", n), "the base-85 decoder does not invert the encoding: "+bad)
+}
+
+// ---------------------------------------------------------------------------------------------------------------
+// R5.20 a decoder leaves its input alone.
+
+// R5.20 [C05, C03]
+func ruleDecodersLeaveInput(c *eng.Ctx) {
+	const R = "R5.20-DECODER-LEAVES-INPUT"
+	c.Rule(R, "no function of internal/filters that takes the encoded bytes writes through that slice (an element store, a copy into it, an append onto a shortened re-slice of it such as data[:0]): the input is Stream.Data, which the stream keeps and decodes again on the next call, and inside one call an output that grows faster than the input is read ('z' is one character for four bytes) overwrites the characters not yet read", 4, 0)
+	eff := eng.EffectsOf(c.P)
+	n := 0
+	for _, fn := range c.P.ModuleFuncs() {
+		if fn.Blocks == nil || fn.Pkg == nil || fn.Parent() != nil || eng.ShortPath(fn.Pkg.Pkg.Path()) != "internal/filters" {
+			continue
+		}
+		for i, p := range fn.Params {
+			sl, ok := p.Type().Underlying().(*types.Slice)
+			if !ok {
+				continue
+			}
+			if bt, ok := sl.Elem().Underlying().(*types.Basic); !ok || bt.Kind() != types.Uint8 {
+				continue
+			}
+			n++
+			w := eff.WritesThrough(fn, i)
+			sortStrings(w)
+			c.Check(len(w) == 0, R, fmt.Sprintf("%s#param:%s", eng.FuncName(fn), p.Name()), fn.Pos(), "the input bytes are only read", "the decoder writes through its input "+p.Name()+" ("+strings.Join(w, "; ")+"): the stream's stored data is overwritten, so decoding it again gives other bytes, and output written over input that was not read yet corrupts the result of this call")
+		}
+	}
+	if n == 0 {
+		c.Undec(R, "internal/filters#decoders", token.NoPos, "no function with a byte-slice parameter found")
+	}
+}
+
+// ---------------------------------------------------------------------------------------------------------------
+// R20.11 the two content sniffers, read on the same first bytes.
+
+// memReaderAt stands for an io.ReaderAt over a byte string in an evaluation.
+type memReaderAt struct{ data []byte }
+
+var evalEOF = &eng.EErr{Msg: "EOF"}
+
+// R20.11 [C20]
+func ruleSniffersAgree(c *eng.Ctx) {
+	const R = "R20.11-SNIFFERS-AGREE"
+	c.Rule(R, "format.DetectFromMagic and format.DetectFromReader, evaluated on the same first bytes - PDF headers, HTML documents that start with a doctype, an <html> tag or an XML declaration, in either case and behind blank lines, spaces, tabs or CR LF, plain text, and inputs of fewer than four bytes: a PDF header is PDF, the HTML openings are HTML (for inputs of four bytes or more), everything else is Unknown, and the two entry points give the same answer", 1, 0)
+	magic := c.P.Func("format.DetectFromMagic")
+	reader := c.P.Func("format.DetectFromReader")
+	pk := c.P.ByPath["format"]
+	if magic == nil || reader == nil || pk == nil || len(magic.Params) != 1 || len(reader.Params) != 2 {
+		c.Ok(R, "format#sniffers", token.NoPos, "the two sniffers are not both present with their signatures: not evaluated")
+		return
+	}
+	cv := func(name string) (int64, bool) {
+		cn, ok := pk.Types.Scope().Lookup(name).(*types.Const)
+		if !ok {
+			return 0, false
+		}
+		v, ok := eng.ConstInt64(cn.Val())
+		return v, ok
+	}
+	unknown, ok1 := cv("Unknown")
+	pdf, ok2 := cv("PDF")
+	html, ok3 := cv("HTML")
+	if !ok1 || !ok2 || !ok3 {
+		c.Ok(R, "format#sniffers", token.NoPos, "format constants not found: not evaluated")
+		return
+	}
+	type tc struct {
+		in   string
+		want int64
+	}
+	var cases []tc
+	for _, lead := range []string{"", "\n", "\r\n", "  ", "\t", "\n\n  "} {
+		for _, open := range []string{"<!DOCTYPE html>\n<html><body><p>x</p></body></html>", "<!doctype HTML PUBLIC \"-//W3C//DTD HTML 4.01//EN\"><html></html>", "<html lang=\"en\"><head></head></html>", "<HTML><BODY>x</BODY></HTML>", "<?xml version=\"1.0\"?>\n<html xmlns=\"http://www.w3.org/1999/xhtml\"></html>"} {
+			cases = append(cases, tc{lead + open, html})
+		}
+	}
+	cases = append(cases, tc{"%PDF-1.4\n%\xe2\xe3\xcf\xd3\n", pdf}, tc{"%PDF-2.0", pdf}, tc{"plain text, nothing else", unknown}, tc{"<?xml version=\"1.0\"?><svg></svg>", unknown}, tc{"{\"a\":1}", unknown}, tc{"    ", unknown}, tc{"<p>", unknown}, tc{"", unknown}, tc{"%PD", unknown})
+	n, bad, skipped := 0, "", ""
+	for _, t := range cases {
+		// DetectFromMagic
+		got1, err := eng.NewEvaluator().Call(magic, []any{eng.BytesOf([]byte(t.in))}, 0)
+		if err != nil && !err.Panic {
+			skipped = "DetectFromMagic: " + err.Msg
+			break
+		}
+		// DetectFromReader over the same bytes
+		ev := eng.NewEvaluator()
+		ev.Global = func(pkg, name string) (any, bool) {
+			if pkg == "io" && name == "EOF" {
+				return evalEOF, true
+			}
+			return nil, false
+		}
+		ev.Invoke = func(method string, recv any, args []any) (any, *eng.EvalError, bool) {
+			m, ok := recv.(*memReaderAt)
+			if !ok || method != "ReadAt" || len(args) != 2 {
+				return nil, nil, false
+			}
+			buf, ok1 := args[0].(*eng.ESlice)
+			off, ok2 := args[1].(int64)
+			if !ok1 || !ok2 || off < 0 {
+				return nil, nil, false
+			}
+			k := 0
+			for i := range buf.L {
+				if int(off)+i >= len(m.data) {
+					break
+				}
+				buf.L[i].V = int64(m.data[int(off)+i])
+				k++
+			}
+			if k < len(buf.L) {
+				return eng.ETuple{int64(k), evalEOF}, nil, true
+			}
+			return eng.ETuple{int64(k), nil}, nil, true
+		}
+		got2, err2 := ev.Call(reader, []any{&memReaderAt{[]byte(t.in)}, int64(len(t.in))}, 0)
+		if err2 != nil && !err2.Panic {
+			skipped = "DetectFromReader: " + err2.Msg
+			break
+		}
+		n++
+		f1, _ := got1.(int64)
+		if err != nil {
+			bad = fmt.Sprintf("DetectFromMagic(%q) panics: %s", t.in, err.Msg)
+			break
+		}
+		if err2 != nil {
+			bad = fmt.Sprintf("DetectFromReader(%q) panics: %s", t.in, err2.Msg)
+			break
+		}
+		tup, ok := got2.(eng.ETuple)
+		if !ok || len(tup) != 2 {
+			skipped = "DetectFromReader does not return (Format, error)"
+			break
+		}
+		f2, _ := tup[0].(int64)
+		want1 := t.want
+		if len(t.in) < 4 {
+			want1 = unknown
+		}
+		switch {
+		case tup[1] != nil:
+			bad = fmt.Sprintf("DetectFromReader(%q) gives an error", t.in)
+		case f2 != t.want:
+			bad = fmt.Sprintf("DetectFromReader(%q) = %d, the content is format %d", t.in, f2, t.want)
+		case f1 != want1:
+			bad = fmt.Sprintf("DetectFromMagic(%q) = %d, the content is format %d", t.in, f1, want1)
+		}
+		if bad != "" {
+			break
+		}
+	}
+	if skipped != "" {
+		c.Ok(R, "format#sniffers", magic.Pos(), "not evaluated: "+skipped)
+		return
+	}
+	c.Check(bad == "", R, "format#sniffers-agree", magic.Pos(), fmt.Sprintf("%d inputs evaluated through both entry points", n), "the content sniffers disagree with the content or with each other: "+bad+"; a valid document is no longer recognised as its own format through that entry point and is refused under its own extension")
+}
